@@ -67,6 +67,15 @@ pub struct RunResult {
     pub log: Vec<String>,
 }
 
+/// hex of at most the first 32 bytes
+fn hexs(b: &[u8]) -> String {
+    if b.len() <= 32 {
+        hex(b)
+    } else {
+        format!("{}…(+{} bytes)", hex(&b[..32]), b.len() - 32)
+    }
+}
+
 fn bump(c: &mut Counters, k: &'static str) {
     *c.entry(k).or_insert(0) += 1;
 }
@@ -179,10 +188,11 @@ fn plan_of_event(e: &Event, original: Option<&Plan>) -> Plan {
     match &e.resp {
         Resp::Ok(b) => Plan::Fixed(b.clone()),
         Resp::Err => Plan::Err,
-        Resp::PartialErr(_) => match original {
-            Some(Plan::PartialErr(f)) => Plan::PartialErr(*f),
-            _ => Plan::Err,
-        },
+        Resp::PartialErr(b) => {
+            // smallest fraction that writes the same number of bytes
+            let req = e.req.max(1) as usize;
+            Plan::PartialErr(((b.len() * 256 + req - 1) / req).min(255) as u8)
+        }
         Resp::Panic => match original {
             Some(p @ (Plan::Err | Plan::PartialErr(_))) => p.clone(),
             _ => Plan::Panic,
@@ -192,6 +202,7 @@ fn plan_of_event(e: &Event, original: Option<&Plan>) -> Plan {
 
 pub fn run(spec: &RunSpec, ty: &dyn TyObj, want_log: bool) -> RunResult {
     let mut rng = SimRng::new(spec.fresh_seed, spec.infallible);
+    rng.err_code = spec.err_code;
     let mut viol: Vec<Violation> = Vec::new();
     let mut counters = Counters::new();
     let mut states = BTreeSet::new();
@@ -222,11 +233,11 @@ pub fn run(spec: &RunSpec, ty: &dyn TyObj, want_log: bool) -> RunResult {
                 calls_total += 1;
                 let mut a = SimRng::with_stream(stream.clone());
                 let mut b = SimRng::with_stream(stream.clone());
-                let ra = guarded(|| ty.fill(*len, 0, crate::types::FillVia::TryFillSlice, &mut a, op.dynamic));
+                let ra = guarded(|| ty.fill(*len, 0, 0, crate::types::FillVia::TryFillSlice, &mut a, op.dynamic));
                 let rb = guarded(|| (0..*len).map(|_| ty.gen(&mut b, op.dynamic)).collect::<Vec<_>>());
                 bump(&mut counters, "op_fill_vs_elementwise");
                 match (ra, rb) {
-                    (Ok((Ok(()), va)), Ok(vb)) => {
+                    (Ok((Ok(()), va, _)), Ok(vb)) => {
                         fp.u(a.stream_pos() as u64);
                         for e in &va {
                             fp.b(e);
@@ -645,22 +656,30 @@ pub fn run(spec: &RunSpec, ty: &dyn TyObj, want_log: bool) -> RunResult {
                     mat_calls.push(evs.iter().enumerate().map(|(i, e)| plan_of_event(e, plan.get(i))).collect());
                 }
             }
-            OpKind::Fill { len, init, via } => {
+            OpKind::Fill { len, init, front, via } => {
                 for (ci, plan) in op.calls.iter().enumerate() {
                     calls_total += 1;
                     let start = rng.begin_call_vol(plan, width * (*len).max(1));
-                    let r = guarded(|| ty.fill(*len, *init, *via, &mut rng, op.dynamic));
+                    let r = guarded(|| ty.fill(*len, *init, *front, *via, &mut rng, op.dynamic));
                     let evs = &rng.events[start..];
                     bump(&mut counters, "op_fill");
                     let fault = check_panic(&r, evs, oi, ci, &mut viol, &mut counters);
                     let injected_err = evs.iter().any(|e| matches!(e.resp, Resp::Err | Resp::PartialErr(_)));
+                    if let Ok((_, _, false)) = &r {
+                        viol.push(Violation { class: "out_of_bounds_write", op: oi, call: ci, detail: format!("fill of a {}-element sub-slice (starting {} element(s) into a buffer) changed an element outside the sub-slice", len, front) });
+                    }
                     match &r {
-                        Ok((Ok(()), elems)) => {
+                        Ok((Ok(()), elems, _)) => {
                             let flat: Vec<u8> = elems.iter().flatten().copied().collect();
                             let delivered: Vec<(Method, &[u8])> = evs.iter().filter_map(|e| if let Resp::Ok(b) = &e.resp { Some((e.method, &b[..])) } else { None }).collect();
                             if !refines(&flat, &delivered) {
                                 let what = if injected_err { " (the RNG reported an error during this call, yet Ok was returned)" } else { "" };
-                                viol.push(Violation { class: "refinement", op: oi, call: ci, detail: format!("fill of {} element(s) returned Ok with {} but the RNG delivered [{}]{}", len, hex(&flat), delivered.iter().map(|d| hex(d.1)).collect::<Vec<_>>().join(" "), what) });
+                                let first_bad = {
+                                    // first byte of the result that cannot come from the delivered bytes in order (greedy hint)
+                                    let all: Vec<u8> = delivered.iter().flat_map(|d| d.1.iter().copied()).collect();
+                                    flat.iter().zip(all.iter()).position(|(a, b)| a != b).unwrap_or(all.len().min(flat.len()))
+                                };
+                                viol.push(Violation { class: "refinement", op: oi, call: ci, detail: format!("fill of {} element(s) ({} bytes) returned Ok, but its bytes are not the bytes the RNG delivered during the call ({} request(s), {} bytes delivered){}; first difference near byte {} (element {}): result {} vs delivered {}", len, flat.len(), evs.len(), delivered.iter().map(|d| d.1.len()).sum::<usize>(), what, first_bad, first_bad / width.max(1), hexs(&flat[first_bad.min(flat.len())..]), hexs(&delivered.iter().flat_map(|d| d.1.iter().copied()).skip(first_bad).take(64).collect::<Vec<u8>>())) });
                             } else {
                                 bump(&mut counters, "probe_fill_refines_history");
                                 if *len == 0 {
@@ -669,7 +688,7 @@ pub fn run(spec: &RunSpec, ty: &dyn TyObj, want_log: bool) -> RunResult {
                             }
                             fp.b(&flat);
                         }
-                        Ok((Err(()), _)) => {
+                        Ok((Err(()), _, _)) => {
                             if injected_err {
                                 bump(&mut counters, "probe_err_propagated");
                             } else {
@@ -680,14 +699,14 @@ pub fn run(spec: &RunSpec, ty: &dyn TyObj, want_log: bool) -> RunResult {
                         Err(_) => {}
                     }
                     let summary = match &r {
-                        Ok((Ok(()), e)) => Ok(format!("Ok {} elems", e.len())),
-                        Ok((Err(()), _)) => Ok("Err".to_string()),
+                        Ok((Ok(()), e, _)) => Ok(format!("Ok {} elems", e.len())),
+                        Ok((Err(()), _, _)) => Ok("Err".to_string()),
                         Err(e) => Err(e.clone()),
                     };
                     finish_call(&mut fp, evs, &mut counters, &mut log, want_log, oi, ci, op, &summary);
                     let oc = match &r {
-                        Ok((Ok(()), _)) => 1,
-                        Ok((Err(()), _)) => 2,
+                        Ok((Ok(()), _, _)) => 1,
+                        Ok((Err(()), _, _)) => 2,
                         Err(_) => 3,
                     };
                     states.insert(state_tuple(type_tag, 1, (*len).min(9) as u8, *via as u64, fault, evs.len(), oc));
